@@ -10,5 +10,6 @@ func init() {
 			"a key whose last occurrence in a constructor list has an INVALID value while an earlier one is valid may be dropped or keep the last valid value",
 			"OTEL_RESOURCE_ATTRIBUTES keys are Baggage tokens and are not percent-encoded; only values are",
 			"the value kept for a pair with an undecodable percent escape, and the schema URL after a detector schema conflict followed by further URLs, are not asserted beyond the statement",
+			"hostile caller: the caller's expectation for a list sharing a backing array with another list is the list as built before the first call; whether the library writes into a caller's detector array is observed only through the result of the caller's next call (class label, not asserted); kv lists sharing an array are used shorter-first, once each, because constructors may reorder the slice they are given (last-value-wins preserved)",
 		))
 }
